@@ -27,6 +27,7 @@ func checkC17(c *Ctx) {
 	ea.runE3Strict("ERR-E3-iterator", l.Func("", "*nodeDB.traverseOrphansWithRootkeyCache"))
 	ea.runE5("ERR-E5-sticky")
 	ea.runE6("ERR-E6-use-before-check", nil)
+	ea.runE6Fields("ERR-E6-use-before-check", nil)
 	c.rule("ERR-E7-sentinel-path", "a sentinel error that a caller matches can still arrive with its identity", 3)
 	ea.runE7("ERR-E7-sentinel-path", nil)
 	ea.runStickyLoop("ERR-E5-sticky", nil)
